@@ -999,8 +999,38 @@ class Program:
         """opts._options table: name -> dict(type, default(ast), choices)."""
         m = self.module(PKG + '.opts')
         node = m.assigns.get('_options')
-        if not isinstance(node, (ast.List, ast.Tuple)):
+
+        def flat(x, depth=4):
+            """a list display, or displays (possibly kept by name)
+            concatenated with + / unpacked with *"""
+            if depth <= 0:
+                return None
+            if isinstance(x, ast.Name) and isinstance(
+                    m.assigns.get(x.id), (ast.List, ast.Tuple, ast.BinOp)):
+                return flat(m.assigns[x.id], depth - 1)
+            if isinstance(x, (ast.List, ast.Tuple)):
+                out = []
+                for e in x.elts:
+                    if isinstance(e, ast.Starred):
+                        sub = flat(e.value, depth - 1)
+                        if sub is None:
+                            return None
+                        out.extend(sub)
+                    else:
+                        out.append(e)
+                return out
+            if isinstance(x, ast.BinOp) and isinstance(x.op, ast.Add):
+                a, b = flat(x.left, depth - 1), flat(x.right, depth - 1)
+                return None if a is None or b is None else a + b
+            if isinstance(x, ast.Call) and isinstance(
+                    x.func, ast.Name) and x.func.id in ('list', 'tuple') \
+                    and len(x.args) == 1:
+                return flat(x.args[0], depth - 1)
+            return None
+        elts = flat(node) if node is not None else None
+        if elts is None:
             raise AnalysisError('opts._options is not a literal list')
+        node = ast.List(elts=elts, ctx=ast.Load())
         out = {}
         for e in node.elts:
             if isinstance(e, ast.Name) and isinstance(
